@@ -5,7 +5,7 @@
    setting and every sequence of operations on an invariant-satisfying connection.  The world-level
    statements (over every history of API calls of any number of ports) are kept visible as
    Definitions ..._full : Prop; they are not proved and are evaluated by the tie on every history. *)
-From V Require Import model.Base model.Conn model.Port proofs.ConnProofs proofs.PortProofs.
+From V Require Import model.Base model.Conn model.Port proofs.ConnProofs proofs.PortProofs proofs.PortInvStep proofs.PortInvRefl.
 
 (* ---- order, at most once ---------------------------------------------------------------- *)
 (* world level: what every subscriber has received from one publisher has strictly increasing
@@ -136,15 +136,34 @@ Qed.
 Print Assumptions c01_blocking_send_blocks.
 
 (* ---- history ----------------------------------------------------------------------------- *)
-(* NOT PROVED: the first samples a subscriber receives from a publisher after connecting are the last
-   min(history_request, buffer size, |history|) history entries, in order.  Model: deliver_history;
-   tie: exhaustive suite `join` and the random histories. *)
-Definition c01_prefix_history_full : Prop :=
+(* PROVED, for EVERY world (reachable or not) in which the pair has no connection yet: when the
+   publisher creates the connection (Sender::create + deliver_sample_history) and the call returns,
+   the submission queue holds exactly the last min(history_request, buffer size) entries of the
+   history, oldest first; receive hands them out in that order (c01_receive_fifo).  Model:
+   pub_create_connection / deliver_history; tie: exhaustive suite `join` and the random histories. *)
+Theorem c01_prefix_history_full :
   forall c h w obs p i d w1, run (world_new c) h = Val (w, obs) -> pub_live w p = true ->
     nth i (p_tab (getp w p)) None = None -> getc w p (sd_id d) = None ->
     pub_create_connection w p i d = Val w1 ->
     exists cn, getc w1 p (sd_id d) = Some cn /\
       idxs cn = map he_idx (lastn (Nat.min (sd_hreq d) (Nat.max 1 (sd_buf d))) (p_hist (getp w p))).
+Proof. intros c h w obs p i d w1 _ _ _. apply prefix_history. Qed.
+Print Assumptions c01_prefix_history_full.
+
+(* a publisher with history 2 that has sent three samples; a subscriber that asks for 2 *)
+Example c01_prefix_history_full_nonvacuous :
+  match run (world_new {| cf_S := 2; cf_P := 1; cf_B := 2; cf_M := 1; cf_H := 2; cf_ovf := true; cf_E := 2 |})
+            [OPubCreate 1 false HNone; OSendCopy 0; OSendCopy 0; OSendCopy 0] with
+  | Val (w, _) =>
+    map he_idx (p_hist (getp w 0)) = [1; 2] /\ getc w 0 7 = None /\
+    match pub_create_connection w 0 1 {| sd_id := 7; sd_buf := 2; sd_hreq := 2 |} with
+    | Val w1 => exists cn, getc w1 0 7 = Some cn /\ idxs cn = [1; 2]
+    | Panic => False
+    end
+  | Panic => False
+  end.
+Proof. vm_compute. split; [reflexivity|]. split; [reflexivity|]. eexists. split; reflexivity. Qed.
+Print Assumptions c01_prefix_history_full_nonvacuous.
 
 (* F1 (fixed in /repo by 81d4165): three expired connections are cleaned up completely *)
 Theorem c01_expired_connections_regression :
